@@ -19,7 +19,9 @@
     - the stat of an output file is a stamp drawn from a strictly increasing
       clock at every write (by a rule or by tampering): two different writes
       never leave the same (size, mtime, mode);
-    - the cache's 7-day expiry is not modelled (histories shorter than that);
+    - the creation time of a cache entry is kept in a map beside the cache
+      ([w_times]), written where the entry is written; [w_now] is the
+      cache's clock, constant during one build;
     - names are the strings after [makeRelPath]/[makePath] (C12), and the
       rule digest is taken over the resolved rule;
     - for source and output nodes the code also performs a cache [get] that
@@ -55,8 +57,15 @@ Inductive sel :=
 | SGlobExt (dir : name) (ext : string)   (* "dir/*ext": files directly in dir *)
 | SAll (dir : name).                     (* "dir/**": every file below dir *)
 
+(** [Ignore] entries: "dir/" (everything beneath dir; the root for ""),
+    "dir/*ext" and a literal name, as [path.Match] reads them. *)
+Inductive ign :=
+| IDir (dir : name)
+| IGlobExt (dir : name) (ext : string)
+| ILit (nm : name).
+
 Inductive rkind :=
-| KFileSet (files : list name) (sels : list sel) (includes : list name)
+| KFileSet (files : list name) (sels : list sel) (ignores : list ign) (includes : list name)
 | KBundle (deps : list name).
 
 Record rule := mkRule { r_name : name; r_kind : rkind }.
@@ -125,20 +134,33 @@ Definition sel_matches (s : sel) (f : name) : bool :=
       end
   end.
 
-(** [newFileSet]: explicit files plus selected files, sorted, no duplicates;
-    [None] when a selection selects nothing. *)
+(** the [ignore] closure of [newFileSet] (after the repair of the directory
+    ignore: a directory covers only what is beneath it) *)
+Definition ign_matches (i : ign) (f : name) : bool :=
+  match i with
+  | IDir dir => match below dir f with Some _ => true | None => false end
+  | IGlobExt dir ext => sel_matches (SGlobExt dir ext) f
+  | ILit nm => String.eqb nm f
+  end.
+
+Definition ignored (igns : list ign) (f : name) : bool := existsb (fun i => ign_matches i f) igns.
+
+(** [newFileSet]: explicit files plus selected files that are not ignored,
+    sorted, no duplicates; [None] when a selection selects nothing (tested
+    before the ignores apply). *)
 Definition expand_files (src_names : list name) (files : list name) (sels : list sel)
-  : option (list name) :=
+           (igns : list ign) : option (list name) :=
   if forallb (fun s => existsb (sel_matches s) src_names) sels
-  then Some (sort_dedup (files ++ filter (fun f => existsb (fun s => sel_matches s f) sels) src_names))
+  then Some (sort_dedup (files ++ filter (fun f => existsb (fun s => sel_matches s f) sels &&
+                                                   negb (ignored igns f)) src_names))
   else None.
 
 Definition fileset_out (nm : name) : name := nm ++ ".fileset".
 
 Definition decl_of_rule (src_names : list name) (r : rule) : decl :=
   match r_kind r with
-  | KFileSet files sels incs =>
-      match expand_files src_names files sels with
+  | KFileSet files sels igns incs =>
+      match expand_files src_names files sels igns with
       | Some fl => DRule (r_name r) (fl ++ incs) [fileset_out (r_name r)]
       | None => DBad ESelectNone
       end
@@ -153,12 +175,18 @@ Fixpoint find_rule (k : name) (l : list rule) : option rule :=
 
 (** ** Digests: the value that is hashed *)
 Inductive rdigest :=
-| RDFileSet (nm : name) (files : list name) (sels : list sel) (includes : list name)
+| RDFileSet (nm : name) (files : list name) (sels : list sel) (ignores : list ign)
+            (includes : list name)
 | RDBundle (nm : name).          (* a bundle's rule digest covers its name only *)
+
+(** [FileNodes] of a file set's action: what bears the name of a listed
+    file that is no plain source node; for an output file, its stat. *)
+Inductive fkind := FKRule | FKOut (stamp : N) | FKNone.
 
 Inductive digest :=
 | DSrc (nm : name) (s : stat)                          (* "src" + fileStat *)
-| DRuleD (rd : rdigest) (deps : dlist) (outs : list name)   (* "build_action" *)
+| DRuleD (rd : rdigest) (deps : dlist) (outs : list name)
+         (fnodes : list (name * fkind))                (* "build_action" *)
 | DOutD (deps : dlist) (of : name)                     (* "out" *)
 with dlist :=
 | DNil
@@ -166,7 +194,7 @@ with dlist :=
 
 Definition rdigest_of (r : rule) : rdigest :=
   match r_kind r with
-  | KFileSet f s i => RDFileSet (r_name r) f s i
+  | KFileSet f s g i => RDFileSet (r_name r) f s g i
   | KBundle _ => RDBundle (r_name r)
   end.
 
@@ -191,6 +219,22 @@ Definition sel_eqb (a b : sel) : bool :=
   | _, _ => false
   end.
 
+Definition ign_eqb (a b : ign) : bool :=
+  match a, b with
+  | IDir d, IDir d' => String.eqb d d'
+  | IGlobExt d e, IGlobExt d' e' => String.eqb d d' && String.eqb e e'
+  | ILit n, ILit n' => String.eqb n n'
+  | _, _ => false
+  end.
+
+Definition fkind_eqb (a b : fkind) : bool :=
+  match a, b with
+  | FKRule, FKRule => true
+  | FKOut s, FKOut s' => N.eqb s s'
+  | FKNone, FKNone => true
+  | _, _ => false
+  end.
+
 Fixpoint list_eqb {A : Type} (eqb : A -> A -> bool) (a b : list A) : bool :=
   match a, b with
   | [], [] => true
@@ -200,9 +244,9 @@ Fixpoint list_eqb {A : Type} (eqb : A -> A -> bool) (a b : list A) : bool :=
 
 Definition rdigest_eqb (a b : rdigest) : bool :=
   match a, b with
-  | RDFileSet n f s i, RDFileSet n' f' s' i' =>
+  | RDFileSet n f s g i, RDFileSet n' f' s' g' i' =>
       String.eqb n n' && list_eqb String.eqb f f' && list_eqb sel_eqb s s' &&
-      list_eqb String.eqb i i'
+      list_eqb ign_eqb g g' && list_eqb String.eqb i i'
   | RDBundle n, RDBundle n' => String.eqb n n'
   | _, _ => false
   end.
@@ -210,8 +254,9 @@ Definition rdigest_eqb (a b : rdigest) : bool :=
 Fixpoint digest_eqb (a b : digest) : bool :=
   match a, b with
   | DSrc n s, DSrc n' s' => String.eqb n n' && stat_eqb s s'
-  | DRuleD r d o, DRuleD r' d' o' =>
-      rdigest_eqb r r' && dlist_eqb d d' && list_eqb String.eqb o o'
+  | DRuleD r d o x, DRuleD r' d' o' x' =>
+      rdigest_eqb r r' && dlist_eqb d d' && list_eqb String.eqb o o' &&
+      list_eqb (fun a b => String.eqb (fst a) (fst b) && fkind_eqb (snd a) (snd b)) x x'
   | DOutD d o, DOutD d' o' => dlist_eqb d d' && String.eqb o o'
   | _, _ => false
   end
@@ -230,8 +275,23 @@ Record world := mkW {
   w_src : list (name * stat);
   w_out : list (name * (content * N));   (* out/: content and stamp *)
   w_cache : list (digest * built);       (* out/CACHE *)
-  w_clock : N                            (* next stamp *)
+  w_clock : N;                           (* next stamp *)
+  w_times : list (digest * N);           (* creation time of the cache entries *)
+  w_now : N                              (* the cache's clock *)
 }.
+
+(** cache entries expire after 7 days (nanoseconds) *)
+Definition expire : N := 604800000000000.
+
+Fixpoint time_get (d : digest) (t : list (digest * N)) : N :=
+  match t with
+  | [] => 0%N
+  | (d', x) :: r => if digest_eqb d d' then x else time_get d r
+  end.
+
+(** [now.Before(createTime + expire)] *)
+Definition live (now : N) (times : list (digest * N)) (d : digest) : bool :=
+  N.ltb now (time_get d times + expire).
 
 Definition remove_assoc {A : Type} (k : name) (l : list (name * A)) : list (name * A) :=
   filter (fun p => negb (String.eqb k (fst p))) l.
@@ -334,7 +394,7 @@ Section Exec.
         match ntype n, find_rule i rules with
         | TRule, Some r =>
             match r_kind r with
-            | KFileSet _ _ _ =>
+            | KFileSet _ _ _ _ =>
                 match lookup (fileset_out i) out with
                 | Some (CList l, _) => inl l
                 | _ => inr (FReadInclude i)
@@ -379,7 +439,8 @@ Record bstate := mkB {
   b_cache : list (digest * built);
   b_clock : N;
   b_memo : list (name * digest);       (* ctx.built *)
-  b_exec : list name                   (* the "BUILD <name>" log lines *)
+  b_exec : list name;                  (* the "BUILD <name>" log lines *)
+  b_times : list (digest * N)          (* creation times of cache entries *)
 }.
 
 Definition dep_digests (memo : list (name * digest)) (deps : list name)
@@ -393,7 +454,7 @@ Definition dep_digests (memo : list (name * digest)) (deps : list name)
 Definition node_outs (rules : list rule) (n : node) : list name :=
   match find_rule (nname n) rules with
   | Some r => match r_kind r with
-              | KFileSet _ _ _ => [fileset_out (nname n)]
+              | KFileSet _ _ _ _ => [fileset_out (nname n)]
               | KBundle _ => []
               end
   | None => []
@@ -408,24 +469,63 @@ Definition new_built (out : list (name * (content * N))) (outs : list name)
                 | inl _, None => inr (FMakeBuilt o)
                 end) (inl []) outs.
 
+(** [fileSet.fileNodes]: for every listed file that is no plain source node,
+    the kind of node bearing its name; for an output file its stat (a missing
+    output file makes the digest, hence the build, fail). *)
+Fixpoint extras_of (L : list node) (out : list (name * (content * N))) (fl : list name)
+  : list (name * fkind) + failure :=
+  match fl with
+  | [] => inl []
+  | f :: r =>
+      match extras_of L out r with
+      | inr e => inr e
+      | inl rest =>
+          match find_node f L with
+          | None => inl ((f, FKNone) :: rest)
+          | Some n =>
+              match ntype n with
+              | TSrc => inl rest
+              | TRule => inl ((f, FKRule) :: rest)
+              | TOut => match lookup f out with
+                        | Some (_, stamp) => inl ((f, FKOut stamp) :: rest)
+                        | None => inr (FStat f)
+                        end
+              end
+          end
+      end
+  end.
+
+Definition rule_extras (L : list node) (src_names : list name)
+           (out : list (name * (content * N))) (r : rule) : list (name * fkind) + failure :=
+  match r_kind r with
+  | KBundle _ => inl []
+  | KFileSet files sels igns _ =>
+      match expand_files src_names files sels igns with
+      | Some fl => extras_of L out fl
+      | None => inl []
+      end
+  end.
+
 Section Visit.
   Variable L : list node.
   Variable rules : list rule.
   Variable src : list (name * stat).
+  Variable always : bool.        (* Config.AlwaysRebuild *)
+  Variable now : N.              (* the cache's clock during this build *)
 
   Definition log (nm : name) (st : bstate) : bstate :=
-    mkB (b_out st) (b_cache st) (b_clock st) (b_memo st) (b_exec st ++ [nm])%list.
+    mkB (b_out st) (b_cache st) (b_clock st) (b_memo st) (b_exec st ++ [nm])%list (b_times st).
 
   Definition remember (nm : name) (d : digest) (st : bstate) : bstate :=
-    mkB (b_out st) (b_cache st) (b_clock st) ((nm, d) :: b_memo st) (b_exec st).
+    mkB (b_out st) (b_cache st) (b_clock st) ((nm, d) :: b_memo st) (b_exec st) (b_times st).
 
   (** [n.rule.build]: [inl] the new out/ and clock *)
   Definition exec_rule (r : rule) (n : node) (st : bstate)
     : (list (name * (content * N)) * N) + failure :=
     match r_kind r with
     | KBundle _ => inl (b_out st, b_clock st)
-    | KFileSet files sels incs =>
-        match expand_files (map fst src) files sels with
+    | KFileSet files sels igns incs =>
+        match expand_files (map fst src) files sels igns with
         | None => inr (FFileNotFound (r_name r))     (* cannot happen after loading *)
         | Some fl =>
             match fileset_content L rules src (b_out st) fl incs with
@@ -434,6 +534,13 @@ Section Visit.
                             N.succ (b_clock st))
             end
         end
+    end.
+
+  (** [cache.get] (entry present and not expired) + [checkSameBuilt] *)
+  Definition hitb (st : bstate) (d : digest) : bool :=
+    match cache_get d (b_cache st) with
+    | Some b => live now (b_times st) d && same_built (b_out st) b
+    | None => false
     end.
 
   Definition visit (n : node) (st : bstate) : bstate + (bstate * failure) :=
@@ -451,28 +558,29 @@ Section Visit.
             match find_rule (nname n) rules with
             | None => inr (st, FDepMissing (nname n))   (* every rule node has its rule *)
             | Some r =>
-                let outs := node_outs rules n in
-                let d := DRuleD (rdigest_of r) (canon_deps dd) outs in
-                let hit := match cache_get d (b_cache st) with
-                           | Some b => same_built (b_out st) b
-                           | None => false
-                           end in
-                if hit then inl (remember (nname n) d st)
-                else
-                  let st1 := log (nname n)
-                               (mkB (b_out st) (cache_remove d (b_cache st)) (b_clock st)
-                                    (b_memo st) (b_exec st)) in
-                  match exec_rule r n st1 with
-                  | inr e => inr (st1, e)
-                  | inl (out', clock') =>
-                      match new_built out' outs with
-                      | inr e => inr (mkB out' (b_cache st1) clock' (b_memo st1) (b_exec st1), e)
-                      | inl b =>
-                          inl (remember (nname n) d
-                                 (mkB out' (cache_put d b (b_cache st1)) clock'
-                                      (b_memo st1) (b_exec st1)))
+                match rule_extras L (map fst src) (b_out st) r with
+                | inr e => inr (st, e)              (* "digest file nodes" *)
+                | inl ex =>
+                    let outs := node_outs rules n in
+                    let d := DRuleD (rdigest_of r) (canon_deps dd) outs ex in
+                    if hitb st d && negb always then inl (remember (nname n) d st)
+                    else
+                      let st1 := log (nname n)
+                                   (mkB (b_out st) (cache_remove d (b_cache st)) (b_clock st)
+                                        (b_memo st) (b_exec st) (b_times st)) in
+                      match exec_rule r n st1 with
+                      | inr e => inr (st1, e)
+                      | inl (out', clock') =>
+                          match new_built out' outs with
+                          | inr e => inr (mkB out' (b_cache st1) clock' (b_memo st1) (b_exec st1)
+                                              (b_times st1), e)
+                          | inl b =>
+                              inl (remember (nname n) d
+                                     (mkB out' (cache_put d b (b_cache st1)) clock'
+                                          (b_memo st1) (b_exec st1) ((d, now) :: b_times st1)))
+                          end
                       end
-                  end
+                end
             end
         end
     end.
@@ -495,16 +603,16 @@ Definition load_world (w : world) (ts : list name) : lresult :=
   load_nodes (graph_of w) [""] (src_kind (w_src w)) ts.
 
 Definition with_state (w : world) (st : bstate) : world :=
-  mkW (w_rules w) (w_src w) (b_out st) (b_cache st) (b_clock st).
+  mkW (w_rules w) (w_src w) (b_out st) (b_cache st) (b_clock st) (b_times st) (w_now w).
 
-Definition build (ts : list name) (w : world) : world * list name * bres :=
+Definition build_with (always : bool) (ts : list name) (w : world) : world * list name * bres :=
   match load_world w ts with
   | LOutOfFuel => (w, [], BOutOfFuel)
   | LErr es => (w, [], BLoadErr es)
   | LOk L =>
-      let st0 := mkB (w_out w) (w_cache w) (w_clock w) [] [] in
+      let st0 := mkB (w_out w) (w_cache w) (w_clock w) [] [] (w_times w) in
       match dfs_targets bstate (bstate * failure) L
-                        (visit L (w_rules w) (w_src w))
+                        (visit L (w_rules w) (w_src w) always (w_now w))
                         (fun d p => (st0, FDepMissing d)) ts ([], st0) with
       | None => (w, [], BOutOfFuel)
       | Some (inl (_, st)) => (with_state w st, b_exec st, BOk)
@@ -512,35 +620,52 @@ Definition build (ts : list name) (w : world) : world * list name * bres :=
       end
   end.
 
+Definition build := build_with false.
+
 (** ** Histories *)
 Inductive op :=
 | OSetSrc (nm : name) (s : option stat)      (* add, edit, touch, chmod, delete *)
 | OSetRules (rs : list rule)                 (* the BUILD files were edited *)
 | OTamper (o : name) (c : option content)    (* overwrite or delete an output *)
-| OBuild (ts : list name).
+| OTouchOut (o : name)                       (* chmod / touch an output: same bytes, new stat *)
+| OAdvance (dt : N)                          (* time passes *)
+| OBuild (ts : list name)
+| OBuildAlways (ts : list name).             (* Config.AlwaysRebuild *)
 
 Definition step (w : world) (o : op) : world :=
   match o with
-  | OSetSrc nm s => mkW (w_rules w) (set_assoc nm s (w_src w)) (w_out w) (w_cache w) (w_clock w)
-  | OSetRules rs => mkW rs (w_src w) (w_out w) (w_cache w) (w_clock w)
+  | OSetSrc nm s =>
+      mkW (w_rules w) (set_assoc nm s (w_src w)) (w_out w) (w_cache w) (w_clock w) (w_times w) (w_now w)
+  | OSetRules rs => mkW rs (w_src w) (w_out w) (w_cache w) (w_clock w) (w_times w) (w_now w)
   | OTamper o c =>
       mkW (w_rules w) (w_src w)
           (set_assoc o (match c with Some x => Some (x, w_clock w) | None => None end) (w_out w))
-          (w_cache w) (N.succ (w_clock w))
+          (w_cache w) (N.succ (w_clock w)) (w_times w) (w_now w)
+  | OTouchOut o =>
+      mkW (w_rules w) (w_src w)
+          (match lookup o (w_out w) with
+           | Some (c, _) => set_assoc o (Some (c, w_clock w)) (w_out w)
+           | None => w_out w
+           end)
+          (w_cache w) (N.succ (w_clock w)) (w_times w) (w_now w)
+  | OAdvance dt =>
+      mkW (w_rules w) (w_src w) (w_out w) (w_cache w) (w_clock w) (w_times w) (w_now w + dt)
   | OBuild ts => fst (fst (build ts w))
+  | OBuildAlways ts => fst (fst (build_with true ts w))
   end.
 
 Definition run (h : list op) (w : world) : world := fold_left step h w.
 
 Definition empty_world (rs : list rule) (src : list (name * stat)) : world :=
-  mkW rs src [] [] 0%N.
+  mkW rs src [] [] 0%N [] 0%N.
 
 (** The same sources and rules with an empty out/ (cache included). *)
-Definition clean (w : world) : world := mkW (w_rules w) (w_src w) [] [] (w_clock w).
+Definition clean (w : world) : world :=
+  mkW (w_rules w) (w_src w) [] [] (w_clock w) [] (w_now w).
 
-(** The scope of the model, as a decidable predicate on a loaded world:
-    no file set lists an output file, and no rule or output is named like a
-    source file. *)
+(** The scope of the theorems, as a decidable predicate on a loaded world:
+    no file set lists an output file (what such a file set writes contains
+    the output's own stat, which no two builds share). *)
 Definition no_out_filesb (L : list node) (fl : list name) : bool :=
   forallb (fun f => match find_node f L with
                     | Some n => match ntype n with TOut => false | _ => true end
@@ -549,18 +674,13 @@ Definition no_out_filesb (L : list node) (fl : list name) : bool :=
 
 Definition scopeb (L : list node) (rules : list rule) (src : list (name * stat)) : bool :=
   forallb (fun r => match r_kind r with
-                    | KFileSet files sels incs =>
-                        match expand_files (map fst src) files sels with
+                    | KFileSet files sels igns incs =>
+                        match expand_files (map fst src) files sels igns with
                         | Some fl => no_out_filesb L fl
                         | None => true
                         end
                     | KBundle _ => true
-                    end) rules &&
-  forallb (fun n => match ntype n with
-                    | TSrc => true
-                    | _ => match lookup (nname n) src with None => true | Some _ => false end
-                    end) L.
-
+                    end) rules.
 
 Definition build_in_scopeb (ts : list name) (w : world) : bool :=
   match load_world w ts with
@@ -571,7 +691,10 @@ Definition build_in_scopeb (ts : list name) (w : world) : bool :=
 Fixpoint hist_in_scopeb (h : list op) (w : world) : bool :=
   match h with
   | [] => true
-  | o :: r => match o with OBuild ts => build_in_scopeb ts w | _ => true end &&
+  | o :: r => match o with
+              | OBuild ts | OBuildAlways ts => build_in_scopeb ts w
+              | _ => true
+              end &&
               hist_in_scopeb r (step w o)
   end.
 
